@@ -23,6 +23,12 @@ run('git checkout -- . && rm -f ' + demo_dst, wt)
 rc, out = run('git apply ' + os.path.join(S, 'patch.diff'), wt)
 report['applies'] = rc == 0
 rc, out = run('go build ./... && go test -vet=off -count=1 ./...', wt)
+# TestServer (ramfs/sleepfs/ufs) has a rare flake in the unchanged repository (which of two shutdown causes
+# ServeConn reports, "context canceled" vs "error reading fcall: context canceled"): retry when that is all that failed
+tries = 0
+while rc != 0 and tries < 3 and 'error reading fcall: context canceled' in out and out.count('--- FAIL') == out.count('--- FAIL: TestServer'):
+    tries += 1
+    rc, out = run('go build ./... && go test -vet=off -count=1 ./...', wt)
 report['builds_and_existing_tests_pass'] = rc == 0
 if rc != 0: report['existing_tests_output'] = out[-1500:]
 shutil.copy(demo_src, demo_dst)
